@@ -419,6 +419,10 @@ func (eval RingPackingEvaluator) Merge(ctEvenNHalf, ctOddNHalf, ctN *Ciphertext)
 
 	LogN := ctN.LogN()
 
+	// The result lives at the level of the inputs: a receiver allocated at a higher level must not keep
+	// its old level and stale upper rows.
+	ctN.Resize(1, utils.Min(ctN.Level(), ctEvenNHalf.Level()))
+
 	evalN := eval.Evaluators[LogN]
 	evkNHalfToN := eval.RingSwitchingKeys[LogN-1][LogN]
 	r := eval.Parameters[LogN].GetRLWEParameters().RingQ().AtLevel(ctN.Level())
